@@ -143,6 +143,9 @@ structure St where
 
 def msgId (t k : Nat) : Nat := (t + 1) * 100 + k
 
+/-- union of two knowledge sets (kept duplicate-free so that the lists stay small) -/
+def join (a b : List Nat) : List Nat := a ++ b.filter (fun m => !a.contains m)
+
 /-- ids of the prefilled messages: 1..p -/
 def preMsgs (p : Nat) : List Nat := (List.range p).map (· + 1)
 
@@ -225,7 +228,7 @@ def stepSt (c : Cfg) (s : St) (t : Nat) : Option St :=
   | .thr => some (writerNext c s t)
   | .wSpin =>
     if s.spin = 0 then
-      some { s with spin := 1, know := upd s.know t (s.know t ++ s.relSpin), pc := upd s.pc t .wRdCur1 }
+      some { s with spin := 1, know := upd s.know t (join (s.know t) s.relSpin), pc := upd s.pc t .wRdCur1 }
     else some { s with pc := upd s.pc t .wYield }
   | .wYield => some { s with pc := upd s.pc t .wSpin }
   | .wRdCur1 => some { s with pc := upd s.pc t (.wSlot s.cursor) }
@@ -251,7 +254,7 @@ def stepSt (c : Cfg) (s : St) (t : Nat) : Option St :=
       | some r => some (finishWrite c { s with pc := upd s.pc r .rWoken } t)
       | none => some (finishWrite c s t)
   | .rLdCur =>
-    let s1 := { s with know := upd s.know t (s.know t ++ s.relCursor) }
+    let s1 := { s with know := upd s.know t (join (s.know t) s.relCursor) }
     if s.cursor ≠ rposOf c s t then some { s1 with pc := upd s.pc t .rSlot }
     else if c.rm = .busy then some { s1 with pc := upd s.pc t .rLdCur }
     else some { s1 with pc := upd s.pc t (.rFwait s.cursor) }
@@ -266,9 +269,9 @@ def stepSt (c : Cfg) (s : St) (t : Nat) : Option St :=
     else some { s with pc := upd s.pc t (afterFutex c) }
   | .rWoken => some { s with pc := upd s.pc t (afterFutex c) }
   | .oLock =>
-    some { s with rmtx := 1, know := upd s.know t (s.know t ++ s.relMtx), pc := upd s.pc t .oLdCur }
+    some { s with rmtx := 1, know := upd s.know t (join (s.know t) s.relMtx), pc := upd s.pc t .oLdCur }
   | .oLdCur =>
-    some { s with know := upd s.know t (s.know t ++ s.relCursor), pc := upd s.pc t (.oRc1 s.cursor) }
+    some { s with know := upd s.know t (join (s.know t) s.relCursor), pc := upd s.pc t (.oRc1 s.cursor) }
   | .oRc1 v =>
     if s.readCursor ≠ v then some { s with pc := upd s.pc t .oRc2 }
     else some { s with pc := upd s.pc t (.rFwait v) }
